@@ -171,6 +171,18 @@ PROPS["C08"] = {
     "expect_probes": ["c08.names", "c08.d", "c08.r", "c08.p", "c08.v", "c08.l", "c08.n", "c08.full_chunks", "c08.tail_chunks", "c08.srv_prefix_checked", "c08.near_limit", "c08.codec.Base64", "c08.codec.Base64u", "c08.codec.Base128"],
 }
 
+PROPS["C09"] = {
+    "rule": "three pairings over every query type (NULL, PRIVATE, TXT, SRV, MX, CNAME, A) x downstream codec (T,S,U,V,R): (i) real iodined answers a scripted protocol client's fragment-size probes (about 140 lengths per run out of 0..2047: format boundaries, a contiguous window, a random sample, "
+            "in random order, with minimum- and maximum-length query names) and the reference decoder must obtain the documented probe pattern exactly, or a proper prefix / nothing - never other bytes - with the exactly-delivered lengths downward-closed per cell; "
+            "(ii) the real client receives the same tunnel payloads re-encoded in transit by the reference encoder (different record layout, same protocol) and (iii) the real server's own encoding, with fragment sizes up to what one answer can carry and with autoprobe: "
+            "every packet must then be delivered intact, once, in order (a wrongly extracted fragment of any length breaks a packet). non-trivial = (i) >=5 exact deliveries, (ii)/(iii) handshake completed and >=5 packets accepted per side; distinct = distinct run fingerprints",
+    "jobs": [
+        {"scen": "probe", "sets": {}, "quick": 3000, "thorough": 200000},
+        {"scen": "tunnel", "sets": {"mode": "clean9"}, "quick": 1500, "thorough": 80000},
+    ],
+    "expect_probes": ["c09.probes", "c09.exact", "c09.prefix", "c09.cells_with_threshold", "c02.cli.accept", "c02.srv.accept"],
+}
+
 LEVEL_TEXT = {
     "C03": "Exploration: seeded adversarial histories against the real server in virtual time, judged by an independent authorisation model and by users[] snapshots around every processed datagram.",
     "C04": "Exploration: seeded multi-session histories with spoofers and expiry/reuse timing, judged by a wire-level model of slot ownership and a reference downstream reassembler.",
@@ -196,7 +208,7 @@ NOT_CLAIMED = {
     "C15": "under construction",
     "C16": "under construction",
     "C08": "under construction",
-    "C09": "check under construction in this session; not claimed until it is sound",
+    "C09": "under construction",
     "C11": "under construction",
     "C20": "under construction",
 }
